@@ -39,6 +39,8 @@ type g2lUnit struct {
 	absFuncs  map[string]string // Go function -> Lean parameter name ("NodeHash" -> "node")
 	absSigs   map[string]string // Lean parameter name -> Lean type ("node" -> "H → H → H")
 	absVars   map[string]string // Go package variable -> Lean parameter name ("emptyHash" -> "empty")
+	pkgVars   map[string]string // Go package variable -> Lean constant (regenerated table in Generated/Facts.lean)
+	absCalls  map[string]string // source text of a call's function expression -> Lean parameter (":recv" suffix: pass the root receiver)
 	ifaces    map[string]string // interface type name -> Lean type of the value (its single method is application)
 	imports   []string          // extra Lean imports
 	opens     []string          // extra namespaces to open
@@ -143,6 +145,8 @@ type g2lFn struct {
 	nloop    int
 	retType  string
 	inLoop   *g2lLoop
+	deferBody []ast.Stmt // body of a leading `defer func() {…}()` that only touches the named results
+	inDefer  bool
 	brk      *brkTarget
 	monad    string
 	want     types.Type // expected type of the expression being compiled (for nil)
@@ -342,7 +346,7 @@ func (f *g2lFn) zero(t types.Type, at ast.Node) string {
 			return "(default : " + v + ")"
 		}
 		if isErrorType(t) {
-			return "none"
+			return "(none : Option String)"
 		}
 		if _, ok := f.u.ifaceStructs[n.Obj().Name()]; ok {
 			return "(default : " + n.Obj().Name() + ")"
@@ -484,6 +488,9 @@ func (f *g2lFn) expr(b *binds, e ast.Expr) string {
 				f.useAbs(p)
 				return p
 			}
+			if c, ok := f.u.pkgVars[e.Name]; ok {
+				return c
+			}
 			// package-level variable: only error sentinels are supported
 			if isErrorType(o.Type()) {
 				return fmt.Sprintf("(some %q)", e.Name)
@@ -497,6 +504,13 @@ func (f *g2lFn) expr(b *binds, e ast.Expr) string {
 		if e.Op == token.AND {
 			if cl, ok := e.X.(*ast.CompositeLit); ok {
 				if n, ok := f.typeOf(cl).(*types.Named); ok && g2lImplementsError(types.NewPointer(n)) {
+					for _, el := range cl.Elts {
+						if kv, ok := el.(*ast.KeyValueExpr); ok {
+							if id, ok := kv.Key.(*ast.Ident); ok && id.Name == "Err" {
+								return fmt.Sprintf("(wrapErr %q %s)", n.Obj().Name(), f.exprAs(b, kv.Value, g2lErrorType))
+							}
+						}
+					}
 					return fmt.Sprintf("(some %q)", n.Obj().Name())
 				}
 			}
@@ -646,9 +660,9 @@ func (f *g2lFn) binary(b *binds, e *ast.BinaryExpr) string {
 			eq = "(" + x + " == " + y + ")"
 		} else if isErrorType(xt) || isErrorType(f.typeOf(e.Y)) {
 			// err == nil / err != nil
-			if y == "none" {
+			if y == "none" || y == "(none : Option String)" {
 				eq = "(" + x + ").isNone"
-			} else if x == "none" {
+			} else if x == "none" || x == "(none : Option String)" {
 				eq = "(" + y + ").isNone"
 			} else {
 				eq = "decide (" + x + " = " + y + ")"
@@ -768,3 +782,5 @@ func (f *g2lFn) convert(b *binds, to types.Type, arg ast.Expr, at ast.Node) stri
 var g2lErrorIface = types.Universe.Lookup("error").Type().Underlying().(*types.Interface)
 
 func g2lImplementsError(t types.Type) bool { return types.Implements(t, g2lErrorIface) }
+
+var g2lErrorType = types.Universe.Lookup("error").Type()
